@@ -90,13 +90,13 @@ CLAIMS = {
    text='Observer C06 keeps the operational time still owed to each part (cycle time in effect after the receive callbacks plus one-shot offsets booked by public calls, floored at zero; shut-down time does not count) and checks: never late, never early, zero-time finishes only when nothing is owed, failures lose rather than finish, one part at a time, sources need their full cycle, sinks keep their spacing. Checked by TLC on the closed specification (pause / cancel / unpause of the cycle timer under every tie-break) and on recorded runs including double shutdowns within one part and failures during maintenance.',
    technique='TLA+ closed spec Floor.tla model-checked with TLC over configuration families (all tie-breaks) + TLC trace validation of real runs against the property observers FloorObs.tla (sampled TLC behaviours replayed on the code with forced dispatch order)'),
  'C08': dict(engine='floor', ref='DESIGN.md 3.2, 6', note=FLOOR_NOTE,
-   text='Observer C08 (history follows configured connections, ends at the holder, only grows, leaves share the batch history, gates respected, blocked inputs refuse, sinks collect in arrival order, the longest idle single-slot device receives) with the route graph taken from the configuration; checked by TLC on the closed specification and on recorded runs with gates, junctions, rework loops, batches and congestion.',
+   text='Observer C08 (history follows configured connections, ends at the holder, only grows, leaves share the batch history, gates respected, blocked inputs refuse, sinks collect in arrival order, the longest idle single-slot device receives) with the route graph taken from the configuration; checked by TLC on the closed specification and on recorded runs with gates, junctions, rework loops, batches, shared-machine groups (re-entrant, nested: the path stack implied by the history must be the one the part carries) and congestion.',
    technique='TLA+ closed spec Floor.tla model-checked with TLC over configuration families (all tie-breaks) + TLC trace validation of real runs against the property observers FloorObs.tla (sampled TLC behaviours replayed on the code with forced dispatch order)'),
  'C11': dict(engine='floor', ref='DESIGN.md 3.2, 6', note=FLOOR_NOTE,
    text='Observer C11 (holds exactly while processing, pool usage = requirements of the holders, atomic acquisition on accept, released on failure, kept through maintenance, no idle operational holder when time advances) checked by TLC on the closed specification and on recorded runs with competing processors, capacity scripts, failures and maintenance.',
    technique='TLA+ closed spec Floor.tla model-checked with TLC over configuration families (all tie-breaks) + TLC trace validation of real runs against the property observers FloorObs.tla (sampled TLC behaviours replayed on the code with forced dispatch order)'),
  'C13': dict(engine='floor', ref='DESIGN.md 3.2, 6', note=FLOOR_NOTE,
-   text='Observer C13 (down machines accept and release nothing, a failure discards exactly the part in process and reports it once, callbacks once per occurrence in registration order, repeated calls are no-ops, uptime and utilisation equal accumulated operational / processing time) checked by TLC on the closed specification and on recorded runs.',
+   text='Observer C13 (down machines accept and release nothing, a failure discards exactly the part in process and reports it once, callbacks once per occurrence in registration order, repeated calls are no-ops, uptime and utilisation equal accumulated operational / processing time, a work order keeps its target down for exactly its duration, a finished part leaves after restoration) checked by TLC on the closed specification and on recorded runs.',
    technique='TLA+ closed spec Floor.tla model-checked with TLC over configuration families (all tie-breaks) + TLC trace validation of real runs against the property observers FloorObs.tla (sampled TLC behaviours replayed on the code with forced dispatch order)'),
  'C15': dict(engine='floor', ref='DESIGN.md 3.2, 6', note=FLOOR_NOTE,
    text='Observer C15 (last level / resource record equals the live value, exactly one received / produced / supplied / failure record per occurrence observed through public callbacks with time, part, quality and value, counters equal record counts) checked by TLC on every recorded step; the resource-record clauses are also checked on the pool traces of PoolsTrace.tla.',
